@@ -35,6 +35,7 @@ const (
 	LocCell LocKind = iota // a local cell (non-escaping alloc, or an in/out pointer parameter)
 	LocObj                 // leaves [Off,Off+N) of the heap object Ref of root type Root
 	LocElem                // leaves [Off,Off+N) of element Idx of backing array Base, element type ElemT
+	LocOwned               // leaves [Off,Off+N) of the owned node Ref (chunk store)
 	LocArr                 // a whole array object stored as row Base of the element heap (N = array length)
 )
 
@@ -81,6 +82,7 @@ type State struct {
 	iterMod   map[ssa.Value]Term
 	iterRef   map[ssa.Value]Term
 	mapTypes  map[string]mapInfo
+	chunks    map[string]*Chunk
 	actionLog []*Action
 	specIters []*specIter
 	lastIter  *specIter
@@ -94,7 +96,7 @@ func NewState() *State {
 }
 
 func (s *State) Clone() *State {
-	n := &State{next: s.next, actions: s.actions, dead: s.dead, specIters: s.specIters[:len(s.specIters):len(s.specIters)], lastIter: s.lastIter, actionLog: s.actionLog[:len(s.actionLog):len(s.actionLog)]}
+	n := &State{next: s.next, actions: s.actions, dead: s.dead, specIters: s.specIters[:len(s.specIters):len(s.specIters)], lastIter: s.lastIter, actionLog: s.actionLog[:len(s.actionLog):len(s.actionLog)], chunks: s.chunks}
 	n.pc = append([]Term(nil), s.pc...)
 	n.path = append([]string(nil), s.path...)
 	n.cells = make(map[int]Val, len(s.cells))
